@@ -47,6 +47,10 @@ type V struct {
 	Fn  *Fun   // TFun
 	B   []byte // TBytes
 	Pos int    // index of the AST node this value was read from (-1 = none)
+	// Sealed marks a list that is (a view of) program text: a quoted literal is
+	// never modified, stable-sort sorts a fresh copy of it (only consulted when
+	// Interp.MutLists is set).
+	Sealed bool
 }
 
 type entry struct {
@@ -161,6 +165,7 @@ func FromVal(g gen.Val, pos *int) *V {
 			c[i] = FromVal(g.L[i], pos)
 		}
 		v = List(c)
+		v.Sealed = true
 	default:
 		panic("refint: bad gen.Val kind " + g.K)
 	}
